@@ -227,13 +227,21 @@ func (l *logTap) Write(p []byte) (int, error) {
 			l.ticks = append(l.ticks, num(m["round"])+":"+num(m["lastbeacon"]))
 			l.c["tick"]++
 		case bl == "catchupmode" && m["catchup_launch"] != nil:
-			l.appended = append(l.appended, num(m["last_is"])+":"+num(m["current"])+":"+num(m["catchup_launch"]))
+			// what the run loop saw; whether it launched the catch-up goroutine is taken from that
+			// goroutine's own first line ("sleeping now"), not from the value printed here
+			l.appended = append(l.appended, num(m["last_is"])+":"+num(m["current"])+":0")
 			l.c["appseen"]++
 			if m["catchup_launch"] == true {
 				l.c["launch"]++
 			}
 		case bl == "catchupmode" && msg == "sleeping now":
 			l.c["sleeping"]++
+			for i := len(l.appended) - 1; i >= 0; i-- {
+				if strings.HasPrefix(l.appended[i], num(m["last_is"])+":") && strings.HasSuffix(l.appended[i], ":0") {
+					l.appended[i] = strings.TrimSuffix(l.appended[i], ":0") + ":1"
+					break
+				}
+			}
 		case bl == "catchupmode" && msg == "broadcast next partial":
 			l.c["cbroadcast"]++
 		case msg == "ignoring past partial":
